@@ -728,6 +728,41 @@ func SliceReachesPred(from ssa.Value, pred func(ssa.Value) bool, depth int) bool
 	return false
 }
 
+// TraceFrom is Trace read from fn: where the provenance of v ends in parameters of a helper that fn's family calls
+// from one site, it continues with the arguments passed there (fields, calls and parameters are merged in).
+func TraceFrom(fn *ssa.Function, v ssa.Value, depth int) *Sources {
+	s := Trace(v, depth)
+	for i := 0; i < 2; i++ {
+		var more []*Sources
+		for prm := range s.Params {
+			if prm.Parent() == fn {
+				continue
+			}
+			if cv := CallerValue(fn, prm); cv != ssa.Value(prm) {
+				more = append(more, Trace(cv, depth))
+			}
+		}
+		if len(more) == 0 {
+			break
+		}
+		for _, m := range more {
+			for k := range m.Fields {
+				s.Fields[k] = true
+			}
+			for k := range m.Calls {
+				s.Calls[k] = true
+			}
+			for k := range m.Params {
+				s.Params[k] = true
+			}
+			for k := range m.KeyFields {
+				s.KeyFields[k] = true
+			}
+		}
+	}
+	return s
+}
+
 // HasCallNamed reports whether a call to a function or method of that name lies on the provenance of the value.
 func (s *Sources) HasCallNamed(name string) bool {
 	for c := range s.Calls {
